@@ -80,6 +80,10 @@ class World:
         import urllib.parse
         return "https://%s/.well-known/webfinger?resource=%s" % (self.host(k), urllib.parse.quote_plus("acct:%s@%s" % (account, self.host(k)), safe=""))
 
+    def feed(self, urls, stamps, amounts):
+        """stamps: {tag: stamp} of every item the sources hold (the model reads timestamps from it)"""
+        self.ops.append(("feed", [self.u(x) for x in urls], sorted(stamps.items()), list(amounts)))
+
     def paging(self, url, amounts):
         self.ops.append(("paging", self.u(url), list(amounts)))
 
@@ -110,6 +114,8 @@ class World:
                 toks += [4, len(o[1])] + list(o[1])
             elif o[0] == "paging":
                 toks += [5, o[1], len(o[2])] + list(o[2])
+            elif o[0] == "feed":
+                toks += [6, len(o[1])] + list(o[1]) + [len(o[2])] + [x for kv in o[2] for x in kv] + [len(o[3])] + list(o[3])
             else:
                 toks += [1] + jsongen.to_tokens(o[1]) + [o[2]]
         meta = {"universe": self.universe, "entries": [(self.universe[ui], resp.decode("latin-1"), fin) for ui, resp, fin in self.entries],
